@@ -239,6 +239,7 @@ pub fn replay(o: &Opts) -> Value {
                                     ("decl", format!("<?xml version=\"1.0\" encoding=\"UTF-8\"?>{doc}")),
                                     ("bom+decl", format!("\u{feff}<?xml version='1.0' encoding='utf-8' ?>\n{doc}")),
                                     ("prefixed", prefixed(&doc)),
+                                    ("ns-scopes", ns_scopes(&doc)),
                                 ];
                                 for (vname, vdoc) in &variants {
                                     let d = de_str(ty, vdoc);
@@ -318,6 +319,52 @@ pub fn replay(o: &Opts) -> Value {
         devs.insert("C14-1".into(), json!(known_c14_1));
     }
     json!({"behaviours": n, "runs": runs, "comparisons": cmp, "nontrivial": nontriv, "violations": viol, "samples": samples, "drift": d, "devs_used": devs})
+}
+
+/// A presentation that exercises the namespace bookkeeping behind `xsi:nil`: the root binds prefix `x` to an ordinary
+/// namespace, an unknown first child (skipped by the deserializer; its first child repeats its name) rebinds `x` to the
+/// XMLSchema-instance namespace, and every other child carries `x:nil="true"` - which means nothing as long as the scope of
+/// the skipped element has ended.  Whatever the deserializer makes of it, the str and the reader entry points must agree.
+fn ns_scopes(doc: &str) -> String {
+    let b = doc.as_bytes();
+    // end of the root start tag: the first '>' outside quotes
+    let (mut i, mut q) = (0usize, 0u8);
+    while i < b.len() {
+        match (q, b[i]) {
+            (0, b'"') | (0, b'\'') => q = b[i],
+            (0, b'>') => break,
+            (c, d) if c != 0 && c == d => q = 0,
+            _ => {}
+        }
+        i += 1;
+    }
+    if i >= b.len() || i == 0 || b[i - 1] == b'/' {
+        return doc.to_string(); // no content to decorate
+    }
+    let mut out = String::with_capacity(doc.len() + 200);
+    out.push_str(&doc[..i]);
+    out.push_str(" xmlns:x=\"urn:other\">");
+    out.push_str("<zz xmlns:x=\"http://www.w3.org/2001/XMLSchema-instance\"><zz><zz x:nil=\"true\"/></zz></zz>");
+    let rest = &doc[i + 1..];
+    let rb = rest.as_bytes();
+    let mut k = 0;
+    while k < rb.len() {
+        if rb[k] == b'<' && k + 1 < rb.len() && !matches!(rb[k + 1], b'/' | b'!' | b'?') {
+            // copy '<' + name, then the attribute
+            let mut e = k + 1;
+            while e < rb.len() && !matches!(rb[e], b' ' | b'>' | b'/' | b'\t' | b'\n') {
+                e += 1;
+            }
+            out.push_str(&rest[k..e]);
+            out.push_str(" x:nil=\"true\"");
+            k = e;
+        } else {
+            let ch = rest[k..].chars().next().unwrap();
+            out.push(ch);
+            k += ch.len_utf8();
+        }
+    }
+    out
 }
 
 /// the same document with the namespace prefix `ns:` on every element name (the serializer's output contains `<` only as
